@@ -11,6 +11,7 @@
 #pragma once
 
 #include "vf.hpp"
+#include <ctime>
 
 #ifndef VF_NO_RAPIDCHECK
 #include <rapidcheck.h>
@@ -108,9 +109,25 @@ struct Runner
   enum Outcome { PASS, FAIL, SKIPPED, NOTMINE };
   std::string message;
   std::vector<std::pair<std::string, std::string>> lastKnown;
+  // shrinking budget: rapidcheck has none, and an expensive body (O(n^2) oracles, concurrent workloads) can shrink for
+  // hours. Once the budget is spent every further candidate is declared passing without being run, which ends the
+  // shrinking at the smallest failing case found so far (the one in last_failure.json).
+  double firstFailAt = -1;
+  long execAfterFail = 0;
+  double shrinkBudgetS = getenv("VF_SHRINK_BUDGET_S") ? atof(getenv("VF_SHRINK_BUDGET_S")) : 120.0;
+  long shrinkBudgetN = 3000;
+  static double nowS()
+  {
+    struct timespec ts;
+    clock_gettime(CLOCK_MONOTONIC, &ts);
+    return ts.tv_sec + 1e-9 * ts.tv_nsec;
+  }
 
   Outcome once()
   {
+    if (firstFailAt >= 0 && src.mode == Src::RC) {
+      if (++execAfterFail > shrinkBudgetN || nowS() - firstFailAt > shrinkBudgetS) {return PASS;}
+    }
     src.beginCase();
     Ctx c(src, st);
     c.commitBuf = commitBuf;
@@ -139,6 +156,7 @@ struct Runner
     st.evaluations++;
     if (out == SKIPPED) {st.skipped++; st.classes["skipped(outside-quantifier)"]++; return out;}
     if (out == FAIL) {
+      if (firstFailAt < 0) {firstFailAt = nowS();}
       if (!outdir.empty()) {writeFile(outdir + "/last_failure.json", c.caseJson(message) + "\n");}
       return out;
     }
@@ -320,6 +338,9 @@ inline int main(int argc, char ** argv, const std::vector<Sub> & subs)
     params.seed = strtoull(argv[5], nullptr, 10);
     params.maxSize = atoi(argv[6]);
     params.maxDiscardRatio = 10;
+    // concurrent workloads: a failing case is a schedule-dependent observation; re-running dozens of shrink candidates
+    // costs minutes each and proves nothing, so the driver switches shrinking off for them
+    params.disableShrinking = getenv("VF_NO_SHRINK") != nullptr;
     Stats st;
     Runner r(*sub, st, outdir);
     r.src.mode = Src::RC;
